@@ -46,6 +46,7 @@ WL = {
     'tdvp_trunc':   dict(kind='tevo', meas=False, nsteps=3, trunc=True),
     'expmpo':       dict(kind='tevo', meas=False, nsteps=3),
     'expmpo_trunc': dict(kind='tevo', meas=False, nsteps=3, trunc=True),
+    'tdvp1':        dict(kind='tevo', meas=False, nsteps=3),
 }
 
 
@@ -364,6 +365,13 @@ class C18:
             plans.append(self.make_plan(wl, fmt, [dict(mode='run', f=None, raw_idx=i)], 'every-call'))
         return plans
 
+    def plans_sigint(self, wl, fmt, stride=1):
+        """SIGINT (Ctrl-C / scancel --signal=INT) delivered at a recorded system call: handle_abort_signal sets a
+        flag, the run continues to the next checkpoint, saves and ends with KeyboardInterrupt; then resume"""
+        raw = self.refs[(wl, fmt)]['raw']
+        return [self.make_plan(wl, fmt, [dict(mode='run', f=None, raw_idx=i, sig='INT')], 'sigint')
+                for i in range(1, len(raw), stride)]
+
     def run_plans(self, plans):
         t0 = time.time()
         futs = [(p, self.pool.submit(crash.execute_plan, p)) for p in plans]
@@ -499,7 +507,14 @@ class C18:
                 ctx.case(('ref', wl, fmt), action='uninterrupted')
             nscen += 1
             missed = [i for i in res['incs'] if i.get('kill_missed')]
-            if missed:
+            if missed and plan['origin'] == 'sigint':
+                # the signal arrived but the run went on to its end: fine iff no checkpoint followed
+                i = missed[0]['kill_idx']
+                later_ckpt = any(e['ev'] and e['ev'].get('op') == 'marker' and e['ev']['text'].startswith('ckpt')
+                                 for e in ref['raw'][i + 1:])
+                if later_ckpt:
+                    ctx.violation(dict(kind='sigint-ignored', **sig0), detail)
+            elif missed:
                 self.notes['kill_missed'] = self.notes.get('kill_missed', 0) + 1
             final = res['final'] or {}
             summ = final.get('summary') or {}
@@ -672,11 +687,13 @@ def check(ctx):
             for wl, fmt in pairs:
                 plans += t.plans_from_dump(wl, fmt, 6, 3)
         elif quick:
-            plans += t.plans_from_dump('dummy', 'pkl', 40, 6)
+            plans += t.plans_from_dump('dummy', 'pkl', 20, 5)
             plans += t.plans_from_dump('dummy_meas', 'h5', 5, 2)
             plans += t.plans_from_dump('dmrg2', 'pkl', 3, 1)
             plans += t.plans_from_dump('dmrg2_min1', 'pkl', 2, 0)
             plans += t.plans_from_dump('tebd_trunc', 'pkl', 2, 1)
+            sig = t.plans_sigint('dummy', 'pkl')
+            plans += [sig[t.rnd.randrange(len(sig))], sig[7]]
         else:
             for wl, fmt in pairs:
                 if WL[wl]['kind'] == 'dummy':
@@ -687,6 +704,7 @@ def check(ctx):
             for wl, fmt, stride in [('dummy', 'pkl', 1), ('dummy_meas', 'pkl', 1), ('dummy', 'h5', 3), ('dmrg2', 'pkl', 1),
                                     ('tebd', 'pkl', 1), ('tdvp', 'h5', 5)]:
                 plans += t.plans_all_calls(wl, fmt, stride)
+            plans += t.plans_sigint('dummy', 'pkl', 1) + t.plans_sigint('dmrg2', 'h5', 25) + t.plans_sigint('tebd', 'pkl', 4)
         for _, (dump_path, d, c) in t.mc_dumps.items():
             shutil.rmtree(d, ignore_errors=True)
         t.notes['plans'] = len(plans)
